@@ -109,9 +109,35 @@ func (m *Machine) callbackModel(st *State, fr *Frame, name string, sig *types.Si
 			m.escapeValue(st, sig.Params().At(i).Type(), a)
 		}
 	}
+	if name == "callback:func(ConnState, error)" || name == "callback:func(error)" {
+		m.userCodeUnlocked(st, fr, name)
+	}
 	m.addEvent(st, name, args, rets)
 	m.timePasses(st)
 	return rets
+}
+
+// userCodeUnlocked: application callbacks (ConnState, OnError, Handler.Serve) may call back into the
+// client; invoking them while a library mutex is held deadlocks such a callback and everything that waits
+// for the goroutine (C11). Obligation: no mutex is held at the call.
+func (m *Machine) userCodeUnlocked(st *State, fr *Frame, name string) {
+	if st.pure {
+		return
+	}
+	held := ""
+	var keys []string
+	for k, v := range st.locks {
+		if v > 0 {
+			keys = append(keys, k)
+		}
+	}
+	sort.Strings(keys)
+	if len(keys) > 0 {
+		held = strings.Join(keys, ",")
+	}
+	okk := held == ""
+	m.recordObl(st, fr, "guard", "usercode."+strings.TrimPrefix(name, "callback:"), m.ctx.Bool(okk), []string{"C10", "C11"},
+		"application code ("+name+") is called with no library mutex held (a callback that calls back into the client would deadlock); held: "+held, okk)
 }
 
 func (m *Machine) addEvent(st *State, name string, args, rets []Value) *Event {
